@@ -500,8 +500,10 @@ pub fn gen_c02(sh: &mut Shards, o: &Opts) -> serde_json::Value {
         cfgs += 1;
         for (k, (at, w, h)) in cut_images(px.len(), ci + 3).into_iter().enumerate() {
             let img = &px[at..at + w * h];
-            let (t, p) = (crate::util::TC_LBL[(k + ci) % 18], crate::util::CP_LBL[(k / 18 + ci) % 13]);
-            let c = Cfg { tc: t, cp: p, ..c };
+            // the target config's labels and the SOURCE image's own labels are drawn independently: the matrix stage must ignore
+            // both pairs (a Linear-tagged source with a non-Linear target config, and so on)
+            let c = Cfg { tc: crate::util::TC_LBL[rng.below(18) as usize], cp: crate::util::CP_LBL[rng.below(13) as usize], ..c };
+            let (t, p) = (crate::util::TC_LBL[rng.below(18) as usize], crate::util::CP_LBL[rng.below(13) as usize]);
             if st == 8 {
                 emit_enc::<u8>(sh, &c, st, img, w, h, "enc", t, p);
             } else {
